@@ -60,11 +60,11 @@ func IsDotAtom(s string, u8 bool) bool {
 
 // ---------------------------------------------------------------- generator
 
-var plainLocals = []string{"alice", "bob", "carol.smith", "dave+tag", "e", "first.last", "user_1", "x-y", "a1", "mailer-daemon"}
+var plainLocals = []string{"Alice", "BOB", "McDonald.Ian", "alice", "bob", "carol.smith", "dave+tag", "e", "first.last", "user_1", "x-y", "a1", "mailer-daemon"}
 var specialAtoms = []string{"o'brien", "a!b", "c#d", "e$f%g", "h&i", "j*k", "l/m", "n=o?p", "q^r", "s`t", "{u}", "v|w", "~x"}
 var quoteChars = []string{" ", "<", ">", "@", ",", ";", ":", "\\", "\"", "(", ")", "[", "]"}
 var utf8Bits = []string{"ü", "é", "ß", "ж", "日本", "λ", "ñ", "𝒳"}
-var domains = []string{"x.test", "example.org", "mail.example.com", "sub-1.a.test", "d.test", "h0st.example.net", "y.test", "z9.test"}
+var domains = []string{"Example.COM", "MAIL.Example.Org", "x.test", "example.org", "mail.example.com", "sub-1.a.test", "d.test", "h0st.example.net", "y.test", "z9.test"}
 var utf8Domains = []string{"bücher.example", "例え.test", "müller.x.test"}
 var literalDomains = []string{"[192.0.2.7]", "[10.1.2.3]"}
 
@@ -180,7 +180,19 @@ func GenMailbox(r *rand.Rand, allowUTF8 bool) (Mailbox, LocalKind) {
 // every special).  Stored unquoted in mail.Address.Address; whoever re-serialises an address without
 // Address.String() changes or breaks them.
 var QuoteNeedLocals = []string{" admin", "admin ", "\tadmin", "a..b", ".a", "a.", "a(b", "a)b", "a,b", "a:b", "a;b", "a<b", "a>b", "a@b",
-	"a[b", "a]b", "a\\b", "a\"b", "two words", " "}
+	"a[b", "a]b", "a\\b", "a\"b", "two words", " ", "Jane@HQ", "a@B", "Ann@X@Yz", "@TOP", "Mixed Case@Part"}
+
+// SameMailbox: the local part byte for byte (it is case-sensitive, RFC 5321 section 2.4), the domain compared
+// without regard to ASCII letter case (domain names are case-insensitive).
+func SameMailbox(a, b Mailbox) bool {
+	return a.Local == b.Local && strings.EqualFold(a.Domain, b.Domain)
+}
+
+// CaseVariants: the same address spelled with different letter case — different mailboxes as far as the local
+// part goes; each must reach the server in its own spelling.
+func CaseVariants(local, domain string) []string {
+	return []string{local + "@" + domain, strings.ToLower(local) + "@" + strings.ToLower(domain), strings.ToUpper(local) + "@" + strings.ToUpper(domain)}
+}
 
 // BareAddrSpec writes mb WITHOUT display name (addr-spec, or addr-spec in angle brackets), the local part as
 // quoted-string where needed.
